@@ -4,6 +4,7 @@ import Rsbdd.Driver.ParseCases
 import Rsbdd.Driver.CliCases
 import Rsbdd.Driver.EnvCases
 import Rsbdd.Driver.DotCases
+import Rsbdd.Driver.SetCases
 import Std.Data.HashSet
 
 namespace Rsbdd
@@ -20,6 +21,7 @@ def dispatch (fields : List String) : Verdict :=
   | "C11" :: rest => handleC11 rest
   | "C13" :: rest => handleC13 rest
   | "C14" :: rest => handleC14 rest
+  | "C19" :: rest => handleC19 rest
   | "C02" :: rest => handleC02 rest
   | "C03" :: rest => handleC03 rest
   | "C04" :: rest => handleC04 rest
